@@ -854,6 +854,8 @@ def main(ctx: Ctx) -> int:
             prop = pid
         if evk == "Modifier" and clause == "RhsTerms":
             prop = "C13"
+        if evk == "Modifier" and clause == "JacTerms" and pid == "C13":
+            prop = "C13"      # the derivative terms a modifier contributes belong to the named species' row too (C02 reports them as well)
         if clause == "NoStrayTerms" and pid == "C13" and descs[meta[t][0]].get("ode_modifier"):
             prop = "C13"      # an emitted term no reaction / modifier of the model accounts for, in a network that HAS modifiers
         if prop != pid:
